@@ -10,7 +10,8 @@ from __future__ import annotations
 import ast
 
 from ..core import UNKNOWN, AnalysisError, FuncInfo, call_name, get_arg, is_self_attr, norm, walk_no_nested
-from ..paths import structural_guards
+from ..cfg import CFG
+from ..paths import cfg_of, node_of, reaching_defs, structural_guards
 
 EXPLANATION = (
     "Text-conservation rules on the mechanism of every insertion and removal: wherever a string read from a text "
@@ -74,9 +75,7 @@ def _sunk(scope: ast.AST, names: set[str], extra_calls=("method",)) -> bool:
     return False
 
 
-def r09a(ctx):
-    repo = ctx.repo
-    ctx.rule("R09a", "where a text node is cut, the slices tile the string and every slice is re-attached", floor=4)
+def _cut_sites(repo):
     sites = []
     wrapper = None
     for f in repo.module("paragraph").all_funcs:
@@ -92,6 +91,13 @@ def r09a(ctx):
         sites.append((wrapper, arm, "text_str"))
     ins = repo.func("Element._insert")
     sites.append((ins, ins.node, "text"))
+    return sites, wrapper, arms
+
+
+def r09a(ctx):
+    repo = ctx.repo
+    ctx.rule("R09a", "where a text node is cut, the slices tile the string and every slice is re-attached", floor=4)
+    sites, wrapper, arms = _cut_sites(repo)
     for f, scope, var in sites:
         sl = _slices_of(scope, var)
         bounds = {(lo, hi) for lo, hi, _ in sl}
@@ -343,10 +349,115 @@ def r09c(ctx):
         ctx.report("R09c", k, k.node, "strip_elements", "strip_elements no longer goes through strip_tags")
 
 
+def _nonneg(e: ast.expr, site: ast.AST, scope: ast.AST, depth: int = 0) -> bool:
+    """Sign analysis, one bit: is the integer `e`, evaluated at statement `site`, provably >= 0?
+
+    len() and non-negative constants are; min() is if all arguments are, max() if one is; sums and products of non-negatives are; a name is
+    if the tests in force at the site say so (`x > 0`, `x >= 0`, `x > c` with c >= 0), or if every definition of it reaching the site (reaching definitions on the CFG; a
+    parameter or a possibly unbound name does not qualify) assigns a provably non-negative value.  A difference is not (nothing here bounds it)."""
+    if depth > 6:
+        return False
+    if isinstance(e, ast.Constant):
+        return isinstance(e.value, int) and not isinstance(e.value, bool) and e.value >= 0
+    if isinstance(e, ast.Call):
+        nm = call_name(e)
+        if nm == "len" and isinstance(e.func, ast.Name):
+            return True
+        if nm == "min" and isinstance(e.func, ast.Name) and e.args and not e.keywords:
+            return all(_nonneg(a, site, scope, depth + 1) for a in e.args)
+        if nm == "max" and isinstance(e.func, ast.Name) and e.args and not e.keywords:
+            return any(_nonneg(a, site, scope, depth + 1) for a in e.args)
+        if nm == "abs" and isinstance(e.func, ast.Name):
+            return True
+        return False
+    if isinstance(e, ast.BinOp) and isinstance(e.op, (ast.Add, ast.Mult)):
+        return _nonneg(e.left, site, scope, depth + 1) and _nonneg(e.right, site, scope, depth + 1)
+    if isinstance(e, ast.IfExp):
+        return _nonneg(e.body, site, scope, depth + 1) and _nonneg(e.orelse, site, scope, depth + 1)
+    if isinstance(e, ast.Name):
+        for t, pol in structural_guards(site):
+            if isinstance(t, ast.Compare) and len(t.ops) == 1:
+                l, op, r = t.left, t.ops[0], t.comparators[0]
+                if isinstance(l, ast.Name) and l.id == e.id and isinstance(r, ast.Constant) and isinstance(r.value, int) and r.value >= 0:
+                    if (pol and isinstance(op, (ast.Gt, ast.GtE))) or (not pol and isinstance(op, ast.Lt) and r.value >= 0) or (not pol and isinstance(op, ast.LtE)):
+                        return True
+                if isinstance(r, ast.Name) and r.id == e.id and isinstance(l, ast.Constant) and isinstance(l.value, int) and l.value >= 0:
+                    if (pol and isinstance(op, (ast.Lt, ast.LtE))) or (not pol and isinstance(op, (ast.Gt, ast.GtE))):
+                        return True
+        cfg = scope if isinstance(scope, CFG) else None
+        if cfg is None:
+            return False
+        sn = node_of(cfg, site)
+        if sn is None:
+            return False
+        rd = reaching_defs(cfg, e.id).get(sn.id, frozenset())
+        byid = {n.id: n for n in cfg.nodes}
+        if not rd or cfg.entry.id in rd:
+            return False  # a parameter, or possibly unbound
+        for d in rd:
+            st = byid[d].stmt
+            if st is site and depth > 0:
+                return False
+            if not (isinstance(st, ast.Assign) and len(st.targets) == 1 and isinstance(st.targets[0], ast.Name)):
+                return False
+            if not _nonneg(st.value, st, scope, depth + 1):
+                return False
+        return True
+    return False
+
+
+def r09d(ctx, sites):
+    """[:a] [a:b] [b:] tile the string only when a <= b.
+
+    Python slicing does not complain about b < a: `s[:a] + s[a:b] + s[b:]` then repeats s[b:a].  So where a text node is cut in three, the
+    upper cut must not precede the lower one: either both come from a regex match span, or b is a plus a length that is provably not
+    negative (one-bit sign analysis over the definitions and the tests in force)."""
+    ctx.rule("R09d", "three-way cuts are ordered: the end of the cut is its start plus a provably non-negative length (or both are a match span)", floor=2)
+    n = 0
+    for f, scope, var in sites:
+        sl = _slices_of(scope, var)
+        mids = [(lo, hi, node) for lo, hi, node in sl if lo is not None and hi is not None]
+        for lo, hi, node in mids:
+            if not (isinstance(node.slice.lower, ast.Name) and isinstance(node.slice.upper, ast.Name)):
+                raise AnalysisError(f"R09d: cut bounds of {var} in {f.ident} are no longer plain locals")
+            a, b = node.slice.lower.id, node.slice.upper.id
+            bdefs = [x for x in walk_no_nested(scope) if isinstance(x, ast.Assign) and any(b in {y.id for y in ast.walk(t) if isinstance(y, ast.Name)} for t in x.targets)]
+            n += 1
+            if len(bdefs) != 1:
+                raise AnalysisError(f"R09d: `{b}` has {len(bdefs)} definitions in {f.ident}: cut order not decidable by this rule")
+            d = bdefs[0]
+            tg = d.targets[0]
+            if isinstance(tg, ast.Tuple) and [getattr(x, "id", None) for x in tg.elts] == [a, b] and isinstance(d.value, ast.Call) and call_name(d.value) == "span":
+                ctx.instance("R09d", f"{f.file}:{f.ident}", f"{var}[{a}:{b}]: both bounds are the span of one regex match", ok=True, line=d.lineno)
+                continue
+            v = d.value
+            length = None
+            if isinstance(tg, ast.Name) and isinstance(v, ast.BinOp) and isinstance(v.op, ast.Add):
+                if isinstance(v.left, ast.Name) and v.left.id == a:
+                    length = v.right
+                elif isinstance(v.right, ast.Name) and v.right.id == a:
+                    length = v.left
+            if length is None:
+                raise AnalysisError(f"R09d: `{norm(d, 40)}` in {f.ident} is not `{a} + length`: cut order not decidable by this rule")
+            cfg = cfg_of(f)
+            ok = _nonneg(length, d, cfg)
+            ctx.instance("R09d", f"{f.file}:{f.ident}", f"{var}[{a}:{b}]: {norm(d, 40)} with `{norm(length, 20)}` provably >= 0", ok=ok, nontrivial=True, line=d.lineno)
+            if not ok:
+                ldefs = [x for x in walk_no_nested(scope) if isinstance(x, ast.Assign) and isinstance(length, ast.Name)
+                         and any(isinstance(t, ast.Name) and t.id == length.id for t in x.targets) and not _nonneg(x.value, x, cfg)]
+                at = ldefs[-1] if ldefs else d
+                ctx.report("R09d", f, at, f"{norm(at, 60)} can make `{norm(length, 20)}` negative, so {var}[{a}:{b}] can end before it starts",
+                           f"the cut [:{a}] [{a}:{b}] [{b}:] of the text node only tiles it when {a} <= {b}; `{norm(length, 20)}` is not provably non-negative "
+                           f"(`{norm(at.value, 40)}`), and with {b} < {a} the characters between them are written twice: inserting markup changes the text")
+    if n == 0:
+        raise AnalysisError("R09d: no three-way cut of a text node found")
+
+
 def run(ctx):
     r09a(ctx)
     r09b(ctx)
     r09c(ctx)
+    r09d(ctx, _cut_sites(ctx.repo)[0])
 
 
 from ..selftest import Seed, unparse_seed  # noqa: E402
@@ -354,6 +465,12 @@ from ..selftest import Seed, unparse_seed  # noqa: E402
 _P = "src/odfdo/paragraph.py"
 _EL = "src/odfdo/element.py"
 SEEDS = [
+    Seed("offset arm clamps the length by the paragraph-global offset", "fault", _P,
+         "                    length = min(length, len(text))  # type: ignore", "                    length = min(length, len(text) - offset)  # type: ignore", "R09d"),
+    Seed("offset arm takes the caller's length as it comes", "fault", _P,
+         "                if length > 0:\n                    length = min(length, len(text))  # type: ignore\n                else:\n                    length = len(text)  # type: ignore\n",
+         "                if length == 0:\n                    length = len(text)  # type: ignore\n", "R09d"),
+    Seed("offset arm: end computed with the operands swapped", "neutral", _P, "                end = start + length\n", "                end = length + start\n"),
     Seed("regex arm: tail slice skips a character", "fault", _P,
          "                    before = text_str[:start]\n                    match = text_str[start:end]\n                    tail = text_str[end:]",
          "                    before = text_str[:start]\n                    match = text_str[start:end]\n                    tail = text_str[end + 1 :]", "R09a"),
